@@ -288,6 +288,9 @@ func ParseVia(entry string) (Via, error) {
 		if err != nil {
 			return v, fmt.Errorf("sipwire: bad sent-by port %q", sentBy)
 		}
+		if p == 0 {
+			p = -1 // an explicit ":0" is not the same as no port (which means the transport's default)
+		}
 		v.Host, v.Port = sentBy[:i], p
 	} else {
 		v.Host = sentBy
@@ -476,6 +479,8 @@ type Builder struct {
 	Body    []byte
 	NoCL    bool   // do not add Content-Length automatically
 	CLName  string // spelling of the Content-Length name
+	CLZeros int    // leading zeros in front of the Content-Length value (1*DIGIT: still decimal)
+	CLAt    int    // 0: Content-Length is the last header field; k > 0: it stands in front of header k-1
 	EOL     string
 }
 
@@ -492,21 +497,30 @@ func (b *Builder) Bytes() []byte {
 	var buf bytes.Buffer
 	buf.WriteString(b.Start)
 	buf.WriteString(eol)
-	for _, h := range b.Headers {
-		buf.WriteString(h.Name)
-		buf.WriteString(": ")
-		buf.WriteString(h.Value)
-		buf.WriteString(eol)
-	}
-	if !b.NoCL {
+	writeCL := func() {
 		n := b.CLName
 		if n == "" {
 			n = "Content-Length"
 		}
 		buf.WriteString(n)
 		buf.WriteString(": ")
+		buf.WriteString(strings.Repeat("0", b.CLZeros))
 		buf.WriteString(strconv.Itoa(len(b.Body)))
 		buf.WriteString(eol)
+	}
+	done := b.NoCL
+	for i, h := range b.Headers {
+		if !done && b.CLAt > 0 && i == b.CLAt-1 {
+			writeCL()
+			done = true
+		}
+		buf.WriteString(h.Name)
+		buf.WriteString(": ")
+		buf.WriteString(h.Value)
+		buf.WriteString(eol)
+	}
+	if !done {
+		writeCL()
 	}
 	buf.WriteString(eol)
 	buf.Write(b.Body)
